@@ -689,6 +689,10 @@ func compileStmt(context *funcContext, stmt ast.Stmt, isLastStmt bool) { // {{{
 func compileAssignStmtLeft(context *funcContext, stmt *ast.AssignStmt) (int, []*assigncontext) { // {{{
 	reg := context.RegTop()
 	acs := make([]*assigncontext, 0, len(stmt.Lhs))
+	// Only a simple assignment `x = e` may store directly into a local or use a local's register
+	// as an operand of the store: in a multiple assignment all prefixes, keys and values must be
+	// evaluated (into temporaries) before any store is performed.
+	simple := len(stmt.Lhs) == 1 && len(stmt.Rhs) == 1
 	for _, lhs := range stmt.Lhs {
 		switch st := lhs.(type) {
 		case *ast.IdentExpr:
@@ -700,12 +704,19 @@ func compileAssignStmtLeft(context *funcContext, stmt *ast.AssignStmt) (int, []*
 			case ecUpvalue:
 				context.Upvalues.RegisterUnique(st.Value)
 			case ecLocal:
-				ec.reg = context.FindLocalVar(st.Value)
+				if simple {
+					ec.reg = context.FindLocalVar(st.Value)
+				}
 			}
 			acs = append(acs, &assigncontext{ec, 0, 0, false, false})
 		case *ast.AttrGetExpr:
 			ac := &assigncontext{&expcontext{ecTable, regNotDefined, 0}, 0, 0, false, false}
-			compileExprWithKMVPropagation(context, st.Object, &reg, &ac.ec.reg)
+			if simple {
+				compileExprWithKMVPropagation(context, st.Object, &reg, &ac.ec.reg)
+			} else {
+				ac.ec.reg = reg
+				reg += compileExpr(context, reg, st.Object, ecnone(0))
+			}
 			ac.keyrk = reg
 			reg += compileExpr(context, reg, st.Key, ecnone(0))
 			if _, ok := st.Key.(*ast.StringExpr); ok {
@@ -754,7 +765,7 @@ func compileAssignStmtRight(context *funcContext, stmt *ast.AssignStmt, reg int,
 		idx := reg
 		reginc := compileExpr(context, reg, expr, ec)
 		if ec.ctype == ecTable {
-			if _, ok := expr.(*ast.LogicalOpExpr); !ok {
+			if _, ok := expr.(*ast.LogicalOpExpr); !ok && lennames == 1 && lenexprs == 1 {
 				context.Code.PropagateKMV(context.RegTop(), &ac.valuerk, &reg, reginc)
 			} else {
 				ac.valuerk = idx
